@@ -77,17 +77,18 @@ type undecided struct{ msg string }
 func failUndecided(format string, a ...any) { panic(undecided{fmt.Sprintf(format, a...)}) }
 
 type encWalker struct {
-	c      *Ctx
-	f      *ssa.Function
-	recv   ssa.Value // the receiver object (spill Alloc of the value receiver)
-	assign map[string]bool
-	conds  map[string]bool // release tests met
-	memo   map[*ssa.BasicBlock][]seg
-	inProg map[*ssa.BasicBlock]bool
-	wrote  []ssa.Instruction // file writes (os.WriteFile)
-	ret    []ssa.Value
-	path   []*ssa.BasicBlock // blocks on the path being walked (for phis of an appended slice)
-	phiUse int               // number of phis resolved by the path so far
+	c        *Ctx
+	f        *ssa.Function
+	recv     ssa.Value // the receiver object (spill Alloc of the value receiver)
+	assign   map[string]bool
+	conds    map[string]bool // release tests met
+	memo     map[*ssa.BasicBlock][]seg
+	inProg   map[*ssa.BasicBlock]bool
+	wrote    []ssa.Instruction // file writes (os.WriteFile)
+	ret      []ssa.Value
+	path     []*ssa.BasicBlock // blocks on the path being walked (for phis of an appended slice)
+	phiUse   int               // number of phis resolved by the path so far
+	loopBase map[*ssa.Phi]bool // loop-carried slices being described (their value at the loop head counts as empty)
 }
 
 // recvFieldPath: v is a load of receiver member path.
@@ -198,6 +199,19 @@ func (w *encWalker) describeValue(v ssa.Value, order string, pos token.Pos) seg 
 	inner := v
 	if mi, ok := v.(*ssa.MakeInterface); ok {
 		inner = mi.X
+	}
+	// the current element of a range over a literal list of values (a table of the
+	// members to write, in order): described element by element
+	if ld, ok := inner.(*ssa.UnOp); ok && ld.Op == token.MUL {
+		if ia, ok := ld.X.(*ssa.IndexAddr); ok {
+			if elems := variadicElemsOrdered(ia.X); elems != nil && isRangeCounter(ia.Index) {
+				tbl := seg{Kind: "table", Name: "table", Width: -1, Pos: pos}
+				for _, e := range elems {
+					tbl.Body = append(tbl.Body, w.describeValue(e, order, pos))
+				}
+				return tbl
+			}
+		}
 	}
 	width := widthOfType(inner.Type())
 	if width == -2 {
@@ -383,6 +397,12 @@ func (w *encWalker) segsOfBlock(b *ssa.BasicBlock) []seg {
 			failUndecided("%s: WriteString in an encoder", w.c.rel(call.Pos()))
 		case "os.WriteFile":
 			w.wrote = append(w.wrote, call)
+			// octets assembled by append and handed to the write directly
+			if len(call.Call.Args) >= 2 {
+				if segs, ok := w.sliceSegs(call.Call.Args[1], call.Pos(), 0); ok {
+					out = append(out, segs...)
+				}
+			}
 		}
 	}
 	return out
@@ -420,7 +440,14 @@ func (w *encWalker) seqFrom(b, stop *ssa.BasicBlock) []seg {
 				}
 				body := w.seqFromLoop(b.Succs[0], b)
 				exit := w.seqFrom(b.Succs[1], stop)
-				rest = append([]seg{{Kind: "repeat", Name: "records", Width: -1, Body: body}}, exit...)
+				if len(body) == 0 {
+					rest = exit // a loop that writes nothing (its appends are described where the slice is used)
+				} else if len(body) == 1 && body[0].Kind == "table" {
+					// one write per element of a literal list, in order: the list itself
+					rest = append(append([]seg{}, body[0].Body...), exit...)
+				} else {
+					rest = append([]seg{{Kind: "repeat", Name: "records", Width: -1, Body: body}}, exit...)
+				}
 			} else if member, eq, ok := w.releaseTest(t); ok {
 				w.conds[member] = true
 				val := w.assign[member]
@@ -485,8 +512,48 @@ func (w *encWalker) sliceSegs(v ssa.Value, pos token.Pos, depth int) ([]seg, boo
 			}
 		}
 	case *ssa.Phi:
-		// the edge the walked path came in by
+		if w.loopBase[x] {
+			return nil, true // the slice as it enters this iteration
+		}
 		blk := x.Block()
+		// loop-carried slice: what it holds before the loop, then what one iteration appends, repeated
+		{
+			var backV, initV ssa.Value
+			uniform := true
+			for i, p := range blk.Preds {
+				if blk.Dominates(p) {
+					if backV != nil && backV != x.Edges[i] {
+						uniform = false
+					}
+					backV = x.Edges[i]
+				} else {
+					if initV != nil && initV != x.Edges[i] {
+						uniform = false
+					}
+					initV = x.Edges[i]
+				}
+			}
+			if backV != nil && initV != nil && uniform {
+				init, ok := w.sliceSegs(initV, pos, depth+1)
+				if !ok {
+					return nil, false
+				}
+				if w.loopBase == nil {
+					w.loopBase = map[*ssa.Phi]bool{}
+				}
+				w.loopBase[x] = true
+				body, ok := w.sliceSegs(backV, pos, depth+1)
+				delete(w.loopBase, x)
+				if !ok {
+					return nil, false
+				}
+				if len(body) == 0 {
+					return init, true
+				}
+				return append(init, seg{Kind: "repeat", Name: "records", Width: -1, Body: body}), true
+			}
+		}
+		// the edge the walked path came in by
 		for i := len(w.path) - 1; i > 0; i-- {
 			if w.path[i] == blk {
 				for k, p := range blk.Preds {
@@ -730,4 +797,31 @@ func (w *encWalker) packBitsOfCall(call *ssa.Call) ([]bitField, bool) {
 		bits[i].Field = prefix + "." + bits[i].Field
 	}
 	return bits, true
+}
+
+// isRangeCounter: v is the index of a range loop (phi(-1, v) + 1): it takes
+// every index 0..len-1 once, in order.
+func isRangeCounter(v ssa.Value) bool {
+	bo, ok := v.(*ssa.BinOp)
+	if !ok || bo.Op != token.ADD {
+		return false
+	}
+	if k, ok := constInt(bo.Y); !ok || k != 1 {
+		return false
+	}
+	ph, ok := bo.X.(*ssa.Phi)
+	if !ok {
+		return false
+	}
+	init, back := false, false
+	for _, e := range ph.Edges {
+		if k, ok := constInt(e); ok && k == -1 {
+			init = true
+		} else if e == ssa.Value(bo) {
+			back = true
+		} else {
+			return false
+		}
+	}
+	return init && back
 }
